@@ -10,6 +10,10 @@ Games ==
       [] Family = "stop" -> StopFamily
       [] Family = "dead" -> DescribeAll("dead", RandomSubset(K, DeadGames))
       [] Family = "deadall" -> DescribeAll("dead", DeadGames)
+      [] Family = "hist" -> HistFamily
+      [] Family = "perm" -> PermFamily
+      [] Family = "ties" -> DescribeAll("ties", RandomSubset(K, TieGames))
+      [] Family = "tiesall" -> DescribeAll("ties", TieGames)
 
 ASSUME JsonSerialize(Out, Games)
 ASSUME PrintT(ToJson([family |-> Family, count |-> Len(Games)]))
